@@ -2,7 +2,8 @@
 scratch directory; S3 through the real S3BasicFacade over fake_s3 with the fake clock).
 
 One case = a store (recordings made by running real decorated operations of classes whose NAMES are the categories)
-+ one `PlaybackStudio.play()` request (explicit id list in any order with duplicates / lookup mode) + the set of
++ one `PlaybackStudio.play()` request (explicit id list in any order with duplicates / lookup mode, in lookup order or
+as a random sample under the seed of `random` the case names) + the set of
 categories whose tuning cannot be created + a consumption script for the lazy result generators.
 
 Every function of a category's tuning carries that category's tag: the playback function stamps the tag into the
@@ -13,6 +14,7 @@ import atexit
 import datetime
 import multiprocessing
 import os
+import random
 import shutil
 import tempfile
 import time
@@ -263,6 +265,7 @@ def lookup_properties(case, store):
     if lp.get('end_day') is not None:
         end = BASE + datetime.timedelta(days=lp['end_day'], hours=13)
     return RecordingLookupProperties(start_date=start, end_date=end, limit=lp.get('limit'),
+                                     random_sample=bool(lp.get('random')),
                                      skip_incomplete=lp.get('skip_incomplete', True))
 
 
@@ -271,6 +274,9 @@ def one_play(case, store, script):
     (None = category after category)."""
     journal = []
     del store.lookups[:]
+    # random_sample lookups draw from the process-wide generator of `random` ("use random.seed to change selection",
+    # recordings_lookup.py:15): every play starts from the seed the case names, so that a run can be replayed
+    random.seed(case.get('rseed', 0))
     tuner = TagTuner(store, case.get('fail', []), journal)
     ids = case.get('ids')
     if ids is not None:
